@@ -196,9 +196,27 @@ func c09DagMapKey(e *Env) {
 		_, isField := e.C.PathOf(v)
 		return isField
 	}
-	kind := func(k ssa.Value) string {
+	var kindD func(k ssa.Value, d int) string
+	kind := func(k ssa.Value) string { return kindD(k, 0) }
+	kindD = func(k ssa.Value, d int) string {
 		v := ir.Resolve(k)
 		if c, ok := v.(*ssa.Call); ok {
+			// a naming helper of the package (`keyOf(path)`): what it returns
+			if g := c.Call.StaticCallee(); g != nil && e.P.Funcs[g] && g.Blocks != nil && g.Signature.Results().Len() == 1 && d < 2 {
+				res := ""
+				for _, b := range g.Blocks {
+					if rt, isR := b.Instrs[len(b.Instrs)-1].(*ssa.Return); isR {
+						kd := kindD(rt.Results[0], d+1)
+						if res != "" && res != kd {
+							return "other (" + e.C.Render(v) + ")"
+						}
+						res = kd
+					}
+				}
+				if res != "" {
+					return res
+				}
+			}
 			if ir.IsCallTo(&c.Call, "path/filepath.Base", "path.Base") {
 				return "base name"
 			}
@@ -267,7 +285,7 @@ func c09DagMapKey(e *Env) {
 // check) would be taken for a dead run while the run is alive.
 func c16ClientErrors(e *Env, rule string) {
 	r := e.R
-	r.Rule(rule, "VF", "every error of the socket client's request is a transport error or the timeout sentinel", 3)
+	r.Rule(rule, "VF", "every error of the socket client's request is a transport error or the timeout sentinel", 2)
 	sp := e.P.Pkg("internal/sock")
 	if sp == nil {
 		return
@@ -310,66 +328,92 @@ func c16ClientErrors(e *Env, rule string) {
 		g := c.Call.StaticCallee()
 		return g != nil && !e.P.Funcs[g]
 	}
-	for _, b := range req.Blocks {
-		rt, ok := b.Instrs[len(b.Instrs)-1].(*ssa.Return)
-		if !ok || !e.Facts(req).Reachable(b) || len(rt.Results) != 2 {
-			continue
+	seen := map[*ssa.Function]bool{}
+	var judge func(f *ssa.Function, depth int)
+	judge = func(f *ssa.Function, depth int) {
+		if seen[f] || depth > 3 {
+			return
 		}
-		for _, rv := range RetVals(rt, 1) {
-			v := ir.Resolve(rv)
-			if ir.IsNilConst(v) {
+		seen[f] = true
+		errIdx := f.Signature.Results().Len() - 1
+		for _, b := range f.Blocks {
+			rt, ok := b.Instrs[len(b.Instrs)-1].(*ssa.Return)
+			if !ok || !e.Facts(f).Reachable(b) || errIdx < 0 || errIdx >= len(rt.Results) {
 				continue
 			}
-			okErr, what := false, e.C.Render(v)
-			var cands []ssa.Value
-			if c, isC := v.(*ssa.Call); isC && ir.IsCallTo(&c.Call, "fmt.Errorf") {
-				cands = variadicElems(c.Call.Args[len(c.Call.Args)-1])
-			} else {
-				cands = []ssa.Value{v}
-			}
-			for _, a := range cands {
-				a = ir.Resolve(a)
-				for d := 0; d < 3; d++ {
-					switch x := a.(type) {
-					case *ssa.MakeInterface:
-						a = ir.Resolve(x.X)
-						continue
-					case *ssa.ChangeInterface:
-						a = ir.Resolve(x.X)
-						continue
-					}
-					break
-				}
-				if !ir.IsErrorType(a.Type()) {
-					if _, isIface := a.Type().Underlying().(*types.Interface); !isIface {
-						continue
-					}
-				}
-				if libErr(a) {
-					okErr = true
+			for _, rv := range RetVals(rt, errIdx) {
+				v := ir.Resolve(rv)
+				if ir.IsNilConst(v) {
 					continue
 				}
-				// the timeout sentinel: a package-level error returned under a Timeout() test
-				if u, isU := a.(*ssa.UnOp); isU && u.Op == token.MUL {
-					if _, isG := u.X.(*ssa.Global); isG {
-						underTimeout := HasVal(e.DCS(rt), func(x ssa.Value) bool {
-							c, isC := ir.Resolve(x).(*ssa.Call)
-							return isC && c.Call.IsInvoke() && c.Call.Method.Name() == "Timeout"
-						}, true)
-						if underTimeout {
-							okErr = true
-						} else {
-							okErr, what = false, "package-level error "+e.C.Render(a)+" returned without a Timeout() test"
-							break
+				// handed on from a helper of the package: judged there
+				hv := v
+				if ex, isE := hv.(*ssa.Extract); isE {
+					hv = ex.Tuple
+				}
+				if hc, isC := hv.(*ssa.Call); isC {
+					if g := hc.Call.StaticCallee(); g != nil && e.P.Funcs[g] && rootFn(g).Package() == sp && g.Blocks != nil {
+						judge(g, depth+1)
+						continue
+					}
+				}
+				okErr, what := false, e.C.Render(v)
+				var cands []ssa.Value
+				if c, isC := v.(*ssa.Call); isC && ir.IsCallTo(&c.Call, "fmt.Errorf") {
+					cands = variadicElems(c.Call.Args[len(c.Call.Args)-1])
+				} else {
+					cands = []ssa.Value{v}
+				}
+				for _, a := range cands {
+					a = ir.Resolve(a)
+					for d := 0; d < 3; d++ {
+						switch x := a.(type) {
+						case *ssa.MakeInterface:
+							a = ir.Resolve(x.X)
+							continue
+						case *ssa.ChangeInterface:
+							a = ir.Resolve(x.X)
+							continue
+						}
+						break
+					}
+					if !ir.IsErrorType(a.Type()) {
+						if _, isIface := a.Type().Underlying().(*types.Interface); !isIface {
+							continue
+						}
+					}
+					if libErr(a) {
+						okErr = true
+						continue
+					}
+					// an error parameter of a wrapping helper: what the callers hand in is judged at their returns
+					if _, isP := a.(*ssa.Parameter); isP && f != req {
+						okErr = true
+						continue
+					}
+					// the timeout sentinel: a package-level error returned under a Timeout() test
+					if u, isU := a.(*ssa.UnOp); isU && u.Op == token.MUL {
+						if _, isG := u.X.(*ssa.Global); isG {
+							underTimeout := HasVal(e.DCS(rt), func(x ssa.Value) bool {
+								c, isC := ir.Resolve(x).(*ssa.Call)
+								return isC && c.Call.IsInvoke() && c.Call.Method.Name() == "Timeout"
+							}, true)
+							if underTimeout {
+								okErr = true
+							} else {
+								okErr, what = false, "package-level error "+e.C.Render(a)+" returned without a Timeout() test"
+								break
+							}
 						}
 					}
 				}
+				r.Check(okErr, shortName(f)+": the error returned is a failure of the connection (or the timeout sentinel)", e.InstrPos(rt),
+					"the socket client reports a failure that is not a failure of the connection: the already-running probe and the status getter read every non-timeout error as `no run is alive`, so while the run is alive a second run of the same DAG is admitted and the live run is reported as not running",
+					"returned: "+what)
 			}
-			r.Check(okErr, shortName(req)+": the error returned is a failure of the connection (or the timeout sentinel)", e.InstrPos(rt),
-				"the socket client reports a failure that is not a failure of the connection: the already-running probe and the status getter read every non-timeout error as `no run is alive`, so while the run is alive a second run of the same DAG is admitted and the live run is reported as not running",
-				"returned: "+what)
 		}
 	}
+	judge(req, 0)
 }
 
 // ---------------------------------------------------------------------------
@@ -479,6 +523,45 @@ func c19LicenceInitialised(e *Env) {
 						}
 					}
 				}
+				// a constructor that only allocates (`return &builder{opts: opts}`): the switch set
+				// by what every caller does with the value it gets (`newBuilder(opts).build(def)`)
+				if !set {
+					returned := false
+					for _, rb := range f.Blocks {
+						if rt, isR := rb.Instrs[len(rb.Instrs)-1].(*ssa.Return); isR {
+							for _, rv := range rt.Results {
+								if ir.Resolve(rv) == ssa.Value(al) {
+									returned = true
+								}
+							}
+						}
+					}
+					if sites := e.StaticCallSites(f); returned && len(sites) > 0 {
+						all := true
+						for _, cs := range sites {
+							cv, isV := cs.(ssa.Value)
+							okSite := false
+							if isV {
+								for _, suffix := range []string{path, optF} {
+									for _, ev := range e.C.FieldStores(cs.Parent(), suffix) {
+										if ev.Root != nil && ir.Resolve(ev.Root) == cv {
+											if ev.Val != nil {
+												if bv, isC := ir.ConstBool(ev.Val); isC && !bv {
+													continue
+												}
+											}
+											okSite = true
+										}
+									}
+								}
+							}
+							if !okSite {
+								all = false
+							}
+						}
+						set = all
+					}
+				}
 				r.Check(set, shortName(f)+": the evaluation switch of the "+typesName(et)+" created here is set", e.InstrPos(al),
 					"a value holding its own copy of the no-evaluation switch is created without that copy being set from the load options: its zero value means `evaluate`, so whatever this value builds runs commands and exports variables also for the loaders that only list, show or validate a DAG",
 					"switch: "+typesName(et)+"."+path)
@@ -580,7 +663,16 @@ func c13DecodeKeysChecked(e *Env) {
 				if mi, isMI := arg.(*ssa.MakeInterface); isMI {
 					arg = ir.Resolve(mi.X)
 				}
-				if arg == doc && e.onlyAfterNil(k, ci) {
+				same := arg == doc
+				// two reads of the same local (`var cm map[string]any; yaml…Decode(&cm)`)
+				if !same {
+					if ua, okA := arg.(*ssa.UnOp); okA && ua.Op == token.MUL {
+						if ud, okD := doc.(*ssa.UnOp); okD && ud.Op == token.MUL && ua.X == ud.X {
+							same = true
+						}
+					}
+				}
+				if same && e.onlyAfterNil(k, ci) {
 					ok = true
 				}
 			}
